@@ -10,6 +10,7 @@ package server
 // event per operation, in order, within a deadline. Oracle from the statement alone (no model involved).
 
 import (
+	"strings"
 	"context"
 	"fmt"
 	"os"
@@ -23,6 +24,23 @@ import (
 )
 
 const c18aPort = 19860
+
+// c18aEventStream: the stream an activity event is about
+func c18aEventStream(ev *client.ActivityStreamEvent) string {
+	switch {
+	case ev.CreateStreamOp != nil:
+		return ev.CreateStreamOp.Stream
+	case ev.DeleteStreamOp != nil:
+		return ev.DeleteStreamOp.Stream
+	case ev.PauseStreamOp != nil:
+		return ev.PauseStreamOp.Stream
+	case ev.ResumeStreamOp != nil:
+		return ev.ResumeStreamOp.Stream
+	case ev.SetStreamReadonlyOp != nil:
+		return ev.SetStreamReadonlyOp.Stream
+	}
+	return ""
+}
 
 func TestVerifC18WithAuthz(t *testing.T) {
 	res := vNewResult("C18", "[with client authorisation on] single-node server, activity stream enabled, tls.client.authz switch and casbin enforcer set as startAPIServer sets them, policy: client alice may do everything on every stream used (incl. the activity stream); "+
@@ -46,7 +64,7 @@ func TestVerifC18WithAuthz(t *testing.T) {
 		c.ActivityStream.Enabled = true
 		c.ActivityStream.PublishTimeout = 2 * time.Second
 	})
-	defer func() { s.Stop(); cleanupStorage(t) }()
+	defer func() { vC18Settle(s); s.Stop(); cleanupStorage(t) }()
 	for dl := time.Now().Add(15 * time.Second); time.Now().Before(dl); time.Sleep(10 * time.Millisecond) {
 		if p := s.metadata.GetPartition(activityStream, 0); p != nil && p.IsLeader() && p.log != nil {
 			break
@@ -116,8 +134,14 @@ func TestVerifC18WithAuthz(t *testing.T) {
 			// at least once: redeliveries of earlier events (same or smaller id) may come first
 			dl := time.Now().Add(75 * time.Second)
 			ev := next(time.Until(dl))
-			for ev != nil && ev.Id <= lastID {
-				res.Dist("redelivery")
+			// events about OTHER streams are not this scenario's: the server's own start-up operations (creation of the activity and
+			// cursors streams) are dispatched with a back-off and can reach a NEW_ONLY subscription after it was opened
+			for ev != nil && (ev.Id <= lastID || !strings.HasPrefix(c18aEventStream(ev), "c18a-")) {
+				if ev.Id <= lastID {
+					res.Dist("redelivery")
+				} else {
+					res.Dist("event-of-another-stream")
+				}
 				ev = next(time.Until(dl))
 			}
 			switch {
